@@ -43,6 +43,7 @@ int g_send_allflags_ok = 1;
 unsigned g_accept_calls;
 int g_accept_fd;
 int g_accept_ret;
+int g_accept_errno;
 struct sock_addr * const * g_conn_base;
 const struct sock_addr * g_conn_sab;
 size_t g_conn_next;
@@ -138,7 +139,8 @@ accept(int fd, struct sockaddr * addr, socklen_t * addrlen)
 	g_accept_calls++;
 	g_accept_fd = fd;
 	if (s < 0) {
-		errno = nondet_int();
+		g_accept_errno = nondet_int();
+		errno = g_accept_errno;
 		g_accept_ret = -1;
 		return (-1);
 	}
